@@ -84,6 +84,7 @@ fn main() {
         "C12" => dispatch(&engines::snapxfer::XferEngine, &mode),
         "C13" => dispatch(&engines::snapsync::SyncEngine, &mode),
         "C15" => dispatch(&engines::demo::DemoEngine, &mode),
+        "C16" => dispatch(&engines::datafile::DfEngine, &mode),
         "C17" => dispatch(&engines::teehist::ThEngine, &mode),
         "C18" => dispatch(&engines::sbrowse::SbEngine, &mode),
         "C19" => dispatch(&engines::buffer::BufEngine, &mode),
